@@ -2,8 +2,18 @@
 C12 — Outbound byte stream is handshake + whole frames, in order. Property theorems only (view Transport).
 -/
 import OAP.Model.Client.Transport
+import OAP.Gen.Facts
 namespace OAP.C12
 open OAP OAP.Transport
+
+/-- T2 structure facts, regenerated from go/client on every run (the operations themselves, in source order): Write = closed-check, Pack (caller-local), non-blocking enqueue (select/send/default) -/
+theorem source_order :
+    Gen.seq_tcpConn_Write = ["conn.closed", "conn.p.Pack", "conn.write"] ∧
+    Gen.seq_tcpConn_write = ["conn.closed", "select", "send:conn.writeCh", "default"] ∧
+    Gen.seq_wsConn_Write = ["conn.closed", "conn.p.Pack", "conn.write"] ∧
+    Gen.seq_wsConn_write = ["conn.closed", "select", "send:conn.writeCh", "default"] := by
+  decide
+
 
 /-- for ANY number of concurrent writers and ANY pattern of partial socket writes and flushes: the bytes on the socket
 are always a prefix of handshake ++ accepted frames in acceptance order — nothing interleaved, torn, re-ordered or
